@@ -188,3 +188,12 @@ Proof.
   destruct (mk_grid RR clip_io _ _ _ _ _ _ _ _ _) in E; [|discriminate].
   injection E as <-. reflexivity.
 Qed.
+
+(* square cells pass the XDIM/YDIM test of from_stream for any non-negative tolerance *)
+Lemma esri_square_RR (tol x : R) : 0 <= tol -> nltb RR tol (nabs RR (nsub RR x x)) = false.
+Proof.
+  intros H. cbn. apply Rltb_false. unfold Rminus. rewrite Rplus_opp_r, Rabs_R0. exact H.
+Qed.
+
+Lemma ydim_tol_nonneg : 0 <= STREAM_YDIM_TOL_R.
+Proof. unfold STREAM_YDIM_TOL_R. lra. Qed.
